@@ -40,7 +40,7 @@ func (check) Cases(tier string) int {
 }
 
 func (check) Rule() string {
-	return "each case builds one shared config rich in dynamic values (references, splices, resolver-provided text that parses into objects and lists, nil values, settings captured as *Config) and lets 2-32 goroutines perform a shuffled mix of reads on it at the same time (Unpack into interface{}/typed struct/*Config capture, String/Int/Bool getters, Child, Has, CountField, GetFields, Path, FlattenedKeys, using it and a captured sub-config as merge source, directly and through cfgutil.Collector.Add followed by another Add), 10 rounds per config, preceded by 3 cold rounds in which the goroutines are the first readers of a freshly built identical config (lazily initialised state is initialised under concurrency); the worker is built with the Go race detector (reports counted from the race log per case); at the yield hook inside dynamic value evaluation a PRNG-chosen goroutine yields or sleeps 0-50us; every result is compared with the sequential baseline taken before the goroutines start; the non-evaluating fingerprint of the shared config is compared before/after every round. Fourth wave, per case: (a) option-set twins - 24 isomorphic configs whose every name, path element, struct tag and reference carries a token unique for (case, instance), so that nothing in the process has parsed/resolved/reflected on them before; 12 option sets (a drawn base over PathSep none/./slash, EscapePath, MaxIdx, EnableNumKeys, StructTag, ValidatorTag, Env of two configs, Resolve of two resolvers, Replace/Append/PrependValues; the base with each of the 9 dimensions flipped alone; 2 more drawn sets); instance j is read FIRST under set j (String/Has/CountField of 12 names incl. bracketed names holding the separator, numeric elements, a purely numeric name, references into Env/resolvers; Child+Unpack; Unpack into 11 single-field struct types built with reflect.StructOf whose tags carry the names, a second tag and validator tags; Unpack(map), FlattenedKeys, merge source), which gives the answer of that reader alone; then every set is run on every instance in a drawn order (both orders of every pair occur) and, on 12 untouched instances, by all goroutines at once - every answer must be the one its option set got alone; (b) 2-4 ordinary Unpack calls into ONE target value with *Config, []*Config, map[string]*Config, **Config fields (zero or pre-filled with configs of the caller's own), drawn from two configs, two Env configs and four merge policies: none of the four configs may change (fingerprint and rendering after every call), then the same with one target per goroutine while the configs are read. Distinct interleavings are counted from the merged stream of goroutine ids at the hook. Non-trivial = a round in which at least two goroutines overlapped at the hook (interleaving differs from serial order); distinct = distinct (config, round interleaving)."
+	return "each case builds one shared config rich in dynamic values (references, splices, resolver-provided text that parses into objects and lists, nil values, settings captured as *Config) and lets 2-32 goroutines perform a shuffled mix of reads on it at the same time (Unpack into interface{}/typed struct/*Config capture, String/Int/Bool getters, Child, Has, CountField, GetFields, Path, FlattenedKeys, using it and a captured sub-config as merge source, directly and through cfgutil.Collector.Add followed by another Add), 10 rounds per config, preceded by 3 cold rounds in which the goroutines are the first readers of a freshly built identical config (lazily initialised state is initialised under concurrency); the worker is built with the Go race detector (reports counted from the race log per case); at the yield hook inside dynamic value evaluation a PRNG-chosen goroutine yields or sleeps 0-50us; every result is compared with the sequential baseline taken before the goroutines start; the non-evaluating fingerprint of the shared config is compared before/after every round. Fourth wave, per case: (a) option-set twins - 24 isomorphic configs whose every name, path element, struct tag and reference carries a token unique for (case, instance), so that nothing in the process has parsed/resolved/reflected on them before; 12 option sets (a drawn base over PathSep none/./slash, EscapePath, MaxIdx, EnableNumKeys, StructTag, ValidatorTag, Env of two configs, Resolve of two resolvers, Replace/Append/PrependValues; the base with each of the 9 dimensions flipped alone; 2 more drawn sets); instance j is read FIRST under set j (String/Has/CountField of 12 names incl. bracketed names holding the separator, numeric elements, a purely numeric name, references into Env/resolvers; Child+Unpack; Unpack into 11 single-field struct types built with reflect.StructOf whose tags carry the names, a second tag and validator tags; Unpack(map), FlattenedKeys, merge source), which gives the answer of that reader alone; then every set is run on every instance in a drawn order (both orders of every pair occur) and, on 12 untouched instances, by all goroutines at once - every answer must be the one its option set got alone; (b) 2-4 ordinary Unpack calls into ONE target value with *Config, []*Config, map[string]*Config, **Config fields (zero or pre-filled with configs of the caller's own), drawn from two configs, two Env configs and four merge policies: none of the four configs may change (fingerprint and rendering after every call), then the same with one target per goroutine while the configs are read. Fifth wave: the shared configs (and the configs of (b)) hold EMPTY objects and lists - literal, as list elements, behind a reference, emptied by Remove before the first read - and lists/objects of plain values only; after every merge with the shared config as source (Merge into an empty and a filled destination, Unpack into a config of the caller's own, cfgutil.Collector, the config embedded in a map, the captured sub-config) the destination lives on: every setting it stores that is no container is overwritten, every dictionary gets a new setting, every list one more element (blank containers both), and the stored state of the source must still be what it was when the case began; each goroutine does one of these per round with a destination of its own. Distinct interleavings are counted from the merged stream of goroutine ids at the hook. Non-trivial = a round in which at least two goroutines overlapped at the hook (interleaving differs from serial order); distinct = distinct (config, round interleaving)."
 }
 
 func (check) Assumptions() []string {
@@ -54,6 +54,7 @@ func (check) Assumptions() []string {
 		"a nil *Config receiver is not a configuration with a state (Unpack reports ErrNilConfig, the other readers panic - alone and concurrently alike): class of C07, only monitored here",
 		"which of several failing settings a whole-config Unpack reports, how much of the target was filled before it failed, and the order of GetFields are not determined even for one reader alone (map iteration): failing reads are compared as 'error', GetFields as a set (as in C09)",
 		"configs linked below themselves with SetChild are the product of a write and are not generated",
+		"writes are performed only on destinations of merges (configs the writing goroutine owns) and before the first read (Remove emptying containers); what they do to the destination is not judged here, only that the SOURCE of the merge stays what it was",
 	}
 }
 
@@ -105,11 +106,14 @@ func buildShared(r *rand.Rand) (*ucfg.Config, []ucfg.Option, string) {
 	if r.Intn(2) == 0 {
 		m["cyc"] = "${cyc:absorbed}"
 	}
+	emptyMore := addEmpties(r, m) // fifth wave: empty containers next to the filled ones
+	desc := fmt.Sprintf("%v", m)
 	opts := []ucfg.Option{ucfg.PathSep("."), ucfg.VarExp}
 	c, err := ucfg.NewFrom(m, opts...)
 	if err != nil {
 		panic(err)
 	}
+	emptyMore(c)
 	resolver := func(name string) (string, parse.Config, error) {
 		switch name {
 		case "RES_OBJ":
@@ -122,7 +126,7 @@ func buildShared(r *rand.Rand) (*ucfg.Config, []ucfg.Option, string) {
 		return "", parse.NoopConfig, ucfg.ErrMissing
 	}
 	opts = append(opts, ucfg.Resolve(resolver))
-	return c, opts, fmt.Sprintf("%v", m)
+	return c, opts, desc + " (then Remove of sub.was.gone and wasl.0 where present)"
 }
 
 func fingerprint(c *ucfg.Config) string {
@@ -133,7 +137,7 @@ func fingerprint(c *ucfg.Config) string {
 	return b.String()
 }
 
-func ops(c *ucfg.Config, captured *ucfg.Config, o []ucfg.Option) []op {
+func ops(c *ucfg.Config, captured *ucfg.Config, o []ucfg.Option, probe *srcProbe) []op {
 	str := func(k string) op {
 		return op{"String(" + k + ")", func() string { s, err := c.String(k, -1, o...); return canon(s, err) }}
 	}
@@ -246,6 +250,7 @@ func ops(c *ucfg.Config, captured *ucfg.Config, o []ucfg.Option) []op {
 			return strings.Join(sorted(ch.GetFields()), ",")
 		}},
 	}
+	l = append(l, destinationOps(c, captured, o, probe)...)
 	if captured != nil {
 		l = append(l,
 			op{"captured.Unpack", func() string {
@@ -412,7 +417,9 @@ func (check) Run(seed int64, tier string, idx int, verbose bool) harness.Result 
 	if err := shared.Unpack(&cap, o...); err == nil {
 		captured = cap.Cap
 	}
-	list := ops(shared, captured, o)
+	probe := &srcProbe{}
+	res.Ev("empty_containers_in_shared_config", int64(emptyContainers(shared)))
+	list := ops(shared, captured, o, probe)
 	shared2, mixed := mixedOps()
 	list = append(list, mixed...)
 	fp0, fp0b := fingerprint(shared), fingerprint(shared2)
@@ -429,7 +436,7 @@ func (check) Run(seed int64, tier string, idx int, verbose bool) harness.Result 
 			if fs.Unpack(&ft, fo...) == nil {
 				fc = ft.Cap
 			}
-			fl := ops(fs, fc, fo)
+			fl := ops(fs, fc, fo, probe)
 			_, fm := mixedOps()
 			fl = append(fl, fm...)
 			if len(fl) == len(list) && fl[i].name == op.name {
@@ -440,6 +447,9 @@ func (check) Run(seed int64, tier string, idx int, verbose bool) harness.Result 
 		})
 		if p, pv, where := harness.Safe(func() { base[i] = op.run() }); p {
 			res.Violate("panic", "sequential %s panicked: %s at %s", op.name, pv, where)
+			return res.Done()
+		}
+		if liveDstViolation(res, probe, desc) {
 			return res.Done()
 		}
 		if base[i] != pristine {
@@ -466,6 +476,9 @@ func (check) Run(seed int64, tier string, idx int, verbose bool) harness.Result 
 			return res.Done()
 		}
 	}
+	if liveDstViolation(res, probe, desc) {
+		return res.Done()
+	}
 	if fingerprint(shared) != fp0 || fingerprint(shared2) != fp0b {
 		res.Violate("shared-config-modified-by-reads", "the sequential reads changed the stored state of the config: %q vs %q", firstDiff(fp0, fingerprint(shared)), firstDiff(fingerprint(shared), fp0))
 		return res.Done()
@@ -491,7 +504,8 @@ func (check) Run(seed int64, tier string, idx int, verbose bool) harness.Result 
 	}
 	for cold := 0; cold < 3; cold++ {
 		cs, co, _ := buildShared(rand.New(rand.NewSource(bseed)))
-		cl := ops(cs, nil, co)
+		cl := ops(cs, nil, co, probe)
+		coldHeavy := heavy(cl)
 		cfp := fingerprint(cs)
 		var wg sync.WaitGroup
 		var mismatch atomic.Value
@@ -500,12 +514,16 @@ func (check) Run(seed int64, tier string, idx int, verbose bool) harness.Result 
 		for g := 0; g < goroutines; g++ {
 			wg.Add(1)
 			order := r.Perm(len(cl))
+			g := g
 			go func(order []int) {
 				defer wg.Done()
 				<-start
 				for _, i := range order {
 					want, ok := byName[cl[i].name]
 					if !ok {
+						continue
+					}
+					if slot, heavy := coldHeavy[i]; heavy && slot != (cold+g)%len(coldHeavy) {
 						continue
 					}
 					var got string
@@ -526,6 +544,9 @@ func (check) Run(seed int64, tier string, idx int, verbose bool) harness.Result 
 		wg.Wait()
 		res.Eval(int(evals))
 		res.Ev("cold_rounds_first_readers_concurrent", 1)
+		if liveDstViolation(res, probe, desc) {
+			break
+		}
 		if m := mismatch.Load(); m != nil {
 			sig := "concurrent-first-read-differs-from-sequential"
 			if strings.HasPrefix(m.(string), "panic") {
@@ -539,6 +560,7 @@ func (check) Run(seed int64, tier string, idx int, verbose bool) harness.Result 
 			break
 		}
 	}
+	heavySlots := heavy(list)
 	for round := 0; round < rounds; round++ {
 		fpBefore := fingerprint(shared) + fingerprint(shared2)
 		var mu sync.Mutex
@@ -568,10 +590,14 @@ func (check) Run(seed int64, tier string, idx int, verbose bool) harness.Result 
 		for g := 0; g < goroutines; g++ {
 			wg.Add(1)
 			order := r.Perm(len(list))
+			g := g
 			go func(order []int) {
 				defer wg.Done()
 				<-start
 				for _, i := range order {
+					if slot, heavy := heavySlots[i]; heavy && slot != (round+g)%len(heavySlots) {
+						continue // the merge-and-write ops are the dearest: each goroutine runs one of them per round
+					}
 					var got string
 					p, pv, where := harness.Safe(func() { got = list[i].run() })
 					atomic.AddInt64(&evals, 1)
@@ -619,6 +645,9 @@ func (check) Run(seed int64, tier string, idx int, verbose bool) harness.Result 
 			}
 		}
 		res.Ev("goroutine_switches_at_hook", int64(switches))
+		if liveDstViolation(res, probe, desc) {
+			break
+		}
 		if m := mismatch.Load(); m != nil {
 			sig := "concurrent-read-differs-from-sequential"
 			if strings.HasPrefix(m.(string), "panic") {
@@ -665,6 +694,29 @@ func (check) Run(seed int64, tier string, idx int, verbose bool) harness.Result 
 	}
 	_ = reflect.TypeOf
 	return res.Done()
+}
+
+// liveDstViolation reports what the destination ops noted about their source
+// since the last call (and counts their writes).
+func liveDstViolation(res *harness.R, probe *srcProbe, desc string) bool {
+	note, writes := probe.take()
+	res.Ev("writes_into_destinations_after_a_merge", writes)
+	if note == "" {
+		return false
+	}
+	res.Violate(sigLiveDst, "%s; config %s", note, desc)
+	return true
+}
+
+// heavy: position in the op list -> ordinal among the merge-and-write ops
+func heavy(l []op) map[int]int {
+	m := map[int]int{}
+	for i, o := range l {
+		if strings.Contains(o.name, "writes into every container") {
+			m[i] = len(m)
+		}
+	}
+	return m
 }
 
 func normalise(stream []int64) string {
